@@ -75,6 +75,26 @@ impl HeapBuffer {
         Ok(HeapBuffer { ptr, len })
     }
 
+    /// Creates a buffer that holds `text` and has exactly `capacity` bytes of capacity.
+    ///
+    /// `capacity` must be greater than or equal to `text.len()`.
+    pub(super) fn with_exact_capacity(text: &str, capacity: usize) -> Result<Self, ReserveError> {
+        debug_assert!(text.len() <= capacity);
+
+        let mut buf = HeapBuffer::with_capacity(capacity)?;
+
+        // SAFETY:
+        // - `buf` was allocated just now with `capacity >= text.len()` bytes, it is unique and
+        //   does not overlap with `text`.
+        // - `text` is valid UTF-8.
+        unsafe {
+            ptr::copy_nonoverlapping(text.as_ptr(), buf.ptr.as_ptr(), text.len());
+            buf.set_len(text.len());
+        }
+
+        Ok(buf)
+    }
+
     pub(super) fn with_additional(text: &str, additional: usize) -> Result<Self, ReserveError> {
         let text_len = text.len();
 
